@@ -1615,8 +1615,13 @@ func AggrFunExpr(query *Query, current Map, expr sqlparser.AggrFunc, opts ...Exp
 		}
 		return asNumber(result), nil
 	}
-	// the memo is keyed by the whole call so that SUM(a) and SUM(b) do not share an entry
+	// the memo is keyed by the whole call so that SUM(a) and SUM(b) do not share an entry, and by
+	// the rows it was computed over: a call inside WHERE sees all source rows, the same call in
+	// the select list only those that passed
 	key := sqlparser.String(expr)
+	if query.filtered == nil {
+		key = "where " + key
+	}
 	rs, ok := query.singletonExecutions[key]
 	if !ok {
 		all := map[string]any{"*": query.matched()}
@@ -1866,6 +1871,7 @@ func (query *Query) exec() (result any, err error) {
 			result, err = nil, asError(r)
 		}
 	}()
+	query.filtered = nil
 	if query.dual {
 		rs, err := ExecSelect(query, query.from)
 		if err != nil {
